@@ -7,7 +7,12 @@ Builds on impl_c08.py (instrumented renderable `VR`, history interpreter).  `VR1
     `_finalize_render_data_` are counted per object - objects abandoned half-built (an
     exception inside the base `_get_render_data_`) have no serial and are counted apart;
   * two more fault positions: `_get_render_size_` (size_fault) and the end of
-    `_get_render_data_` (data_fault).
+    `_get_render_data_` (data_fault);
+  * a finalizer that raises: `fin_faults` = the invocation numbers (0-based, per render data
+    object) at which `_finalize_render_data_` raises RuntimeError (reported as
+    ["E", "render", 90]); exceptions raised inside a `__del__` are counted through
+    `sys.unraisablehook`.  With "enumerate_fin": [schedule, ...] the enumeration adds, per
+    schedule, the unfaulted run and every render-fault position with that schedule.
 
 Modes
   iter   : a history on a RenderIterator made by RenderIterator(...) ("init"),
@@ -38,6 +43,38 @@ from term_image.renderable import DataNamespace, UninitializedDataFieldError
 import term_image.renderable._renderable as _renderable_mod
 
 FIN = {}  # serial -> calls of _finalize_render_data_
+FIN_FAULTS = set()  # invocation numbers (0-based, per render data object) at which the finalizer raises
+UNRAISABLE = []  # finalizer exceptions the interpreter reported as unraisable (raised inside a __del__)
+
+
+def _unraisable(u):
+    if getattr(u.exc_value, "_verif_kind", None) == 90:
+        UNRAISABLE.append(1)
+    else:
+        sys.__unraisablehook__(u)
+
+
+sys.unraisablehook = _unraisable
+
+
+def reset(case):
+    FIN.clear()
+    ORPHAN_FIN.clear()
+    FIN_FAULTS.clear()
+    FIN_FAULTS.update(int(k) for k in case.get("fin_faults", []))
+    del UNRAISABLE[:]
+
+
+def quiet_finalize(data):
+    """finalize() as a caller would; 1 if the finalizer's exception came out"""
+    try:
+        data.finalize()
+    except RuntimeError as e:
+        if getattr(e, "_verif_kind", None) != 90:
+            raise
+        return 1
+    return 0
+
 ORPHAN_FIN = {}  # id(render data without serial) -> calls
 SERIAL = [0]
 
@@ -73,10 +110,16 @@ class VR10(VR):
         try:
             serial = render_data[VR10].serial
         except UninitializedDataFieldError:
-            ORPHAN_FIN[id(render_data)] = ORPHAN_FIN.get(id(render_data), 0) + 1
+            k = ORPHAN_FIN.get(id(render_data), 0)
+            ORPHAN_FIN[id(render_data)] = k + 1
         else:
-            FIN[serial] = FIN.get(serial, 0) + 1
+            k = FIN.get(serial, 0)
+            FIN[serial] = k + 1
         super()._finalize_render_data_(render_data)
+        if k in FIN_FAULTS:
+            exc = RuntimeError("injected (_finalize_render_data_)")
+            exc._verif_kind = 90
+            raise exc
 
 
 class VR10Data(DataNamespace, render_cls=VR10):
@@ -99,8 +142,7 @@ def ctor_kind(case):
 
 
 def run_iter(case):
-    FIN.clear()
-    ORPHAN_FIN.clear()
+    reset(case)
     r = make10(case)
     kind = ctor_kind(case)
     res = {"ops": [], "fin_ops": [], "fz_ops": [], "closed_ops": []}
@@ -122,8 +164,8 @@ def run_iter(case):
         main = r.serials[0] if own_data is not None else None
         res["fin"] = FIN[main] if main is not None else 0
         res["finalized_end"] = int(own_data.finalized) if own_data is not None else 0
-        if own_data is not None:
-            own_data.finalize()
+        res["gc_raised"] = len(UNRAISABLE)
+        res["caller_raised"] = quiet_finalize(own_data) if own_data is not None else 0
         res["fin_caller"] = FIN[main] if main is not None else 0
         del own_data
         gc.collect()
@@ -142,7 +184,9 @@ def run_iter(case):
     gc.collect()
     res["fin"] = FIN[main]
     res["finalized_end"] = int(data.finalized)
-    data.finalize()  # what the owner of caller-owned data does in the end; a no-op otherwise
+    res["gc_raised"] = len(UNRAISABLE)
+    # what the owner of caller-owned data does in the end; a no-op otherwise
+    res["caller_raised"] = quiet_finalize(data)
     res["fin_caller"] = FIN[main]
     del data, own_data
     gc.collect()
@@ -158,22 +202,34 @@ PROBE = [["next"], ["seek", 0, 0, True], ["dur", 1], ["pad", ["E", 0, 0, 0, 0]],
 def run_iter_enumerated(case):
     """[[variant case, result], ...]: the unfaulted history, then every fault position."""
     kinds = case["enumerate"]
-    plain = {k: v for k, v in case.items() if k != "enumerate"}
+    plain = {k: v for k, v in case.items() if k not in ("enumerate", "enumerate_fin")}
     plain["faults"] = {}
     first = run_iter(plain)
     out = [[plain, first]]
+    for sched in case.get("enumerate_fin", []):  # the finalizer raises, no render fault
+        v = copy.deepcopy(plain)  # as is: often still open at the end, the finalizer then runs at gc
+        v["fin_faults"] = list(sched)
+        out.append([v, run_iter(v)])
+        v = copy.deepcopy(v)
+        v["ops"] = v["ops"] + copy.deepcopy(PROBE)
+        out.append([v, run_iter(v)])
     for k in range(len(first.get("log", []))):
         for kind in kinds:
             v = copy.deepcopy(plain)
             v["faults"] = {str(k): kind}
             v["ops"] = v["ops"] + copy.deepcopy(PROBE)
             out.append([v, run_iter(v)])
+        for sched in case.get("enumerate_fin", []):  # a failing render AND a failing finalizer
+            v = copy.deepcopy(plain)
+            v["faults"] = {str(k): 1}
+            v["fin_faults"] = list(sched)
+            v["ops"] = v["ops"] + copy.deepcopy(PROBE)
+            out.append([v, run_iter(v)])
     return out
 
 
 def run_oneshot(case):
-    FIN.clear()
-    ORPHAN_FIN.clear()
+    reset(case)
     r = make10(case)
     mode = case["mode"]
     old_stdout, old_sleep = sys.stdout, _renderable_mod.sleep
@@ -214,6 +270,7 @@ def run_oneshot(case):
         "fin_ret": fin_ret,
         "fin_gc": snapshot(),
         "orphans": list(ORPHAN_FIN.values()),
+        "unraisable": len(UNRAISABLE),
         "log": r.log,
         "tell": r.tell(),
         "written": len(buf.getvalue()),
@@ -222,14 +279,23 @@ def run_oneshot(case):
 
 def run_oneshot_enumerated(case):
     kinds = case["enumerate"]
-    plain = {k: v for k, v in case.items() if k != "enumerate"}
+    plain = {k: v for k, v in case.items() if k not in ("enumerate", "enumerate_fin")}
     plain["faults"] = {}
     first = run_oneshot(plain)
     out = [[plain, first]]
+    for sched in case.get("enumerate_fin", []):
+        v = copy.deepcopy(plain)
+        v["fin_faults"] = list(sched)
+        out.append([v, run_oneshot(v)])
     for k in range(len(first.get("log", []))):
         for kind in kinds:
             v = copy.deepcopy(plain)
             v["faults"] = {str(k): kind}
+            out.append([v, run_oneshot(v)])
+        for sched in case.get("enumerate_fin", []):
+            v = copy.deepcopy(plain)
+            v["faults"] = {str(k): 1}
+            v["fin_faults"] = list(sched)
             out.append([v, run_oneshot(v)])
     return out
 
